@@ -123,6 +123,24 @@ def run(rep, tier):
                     if not (close(vals['xcentroid'], ex, 1e-9) and close(vals['ycentroid'], ey, 1e-9)):
                         tag = 'overhang-low-edge' if (bb.ixmin < 0 or bb.iymin < 0) else 'other'
                         bad = (f'centroid:{tag}', (vals['xcentroid'], vals['ycentroid']), (float(ex), float(ey)))
+                    else:
+                        # moment-based shape values: second central moments about the centroid, normalised by the total
+                        sx2, sy2 = (w * (xx - ex) ** 2).sum() / m00, (w * (yy - ey) ** 2).sum() / m00
+                        sxy = (w * (xx - ex) * (yy - ey)).sum() / m00
+                        det = sx2 * sy2 - sxy ** 2
+                        sc2 = max(1.0, abs(sx2), abs(sy2))
+                        if det > 1.0 / 144 + 1e-6 and sx2 > 0 and sy2 > 0:          # no "thin source" regularisation applies
+                            with warnings.catch_warnings():
+                                warnings.simplefilter('ignore')
+                                got = [float(np.asarray(getattr(st, nm).value)) for nm in ('covar_sigx2', 'covar_sigy2', 'covar_sigxy')]
+                                orient = float(np.asarray(st.orientation.value))
+                            rep.count('shape-oracle')
+                            if not (close(got[0], sx2, 1e-8, sc2) and close(got[1], sy2, 1e-8, sc2) and close(got[2], sxy, 1e-8, sc2)):
+                                bad = ('covariance', got, [float(sx2), float(sy2), float(sxy)])
+                            elif abs(sx2 - sy2) > 1e-6 * sc2 or abs(sxy) > 1e-6 * sc2:
+                                eo = 0.5 * math.degrees(math.atan2(2 * sxy, sx2 - sy2))
+                                if abs(((orient - eo) + 90.0) % 180.0 - 90.0) > 1e-6:
+                                    bad = ('orientation', orient, eo)
         if bad:
             rep.violation(f'stat-ne-direct:{bad[0]}', f'ApertureStats.{bad[0]} = {bad[1]} but the direct statistic of the aperture '
                           f'pixel set is {bad[2]}', replay_of(c))
